@@ -24,6 +24,7 @@ def run(ctx: Ctx, chk) -> None:
     chk.run_rule(copies1, ctx)
     chk.run_rule(gate1, ctx)
     chk.run_rule(learn1, ctx)
+    chk.run_rule(who_version, ctx)
 
 
 def vtuple(s: str):
@@ -64,11 +65,21 @@ def table_v(ctx: Ctx, chk) -> None:
     ver = [n for n in ctx.own_nodes(init) if isinstance(n, (ast.Assign, ast.AnnAssign)) and norm(n.targets[0] if isinstance(n, ast.Assign) else n.target) == "self._protocol_version"]
     ok = len(prot) == 1 and cn.canon(prot[0].value) in ("get_protocol('1.4')",) and len(ver) == 1 and isinstance(ver[0].value, ast.Constant) and ver[0].value.value is None
     setp = [n for n in ctx.own_nodes(init) if isinstance(n, ast.Call) and norm(n.func).endswith(".set_protocol")]
-    ok = ok and len(setp) == 1 and cn.canon(setp[0].args[0]) == "get_protocol('1.4')"
+    ok = ok and len(setp) == 1 and canon_sa(ctx, cn, init, setp[0].args[0]) == "get_protocol('1.4')"
     if ok:
         chk.ok(rule, f"{init.fq}::initial protocol", "_protocol = get_protocol('1.4'), schema set to it, _protocol_version = None", init.where)
     else:
         chk.refute(rule, f"{init.fq}::initial protocol", "a new gateway does not start with protocol 1.4 in force (protocol, schema context) and version None", init.where)
+
+
+def canon_sa(ctx: Ctx, cn: Canon, f, e: ast.expr) -> str:
+    """Canonical text of e where `self.<attr>` that f assigns exactly once stands for the assigned value."""
+    t = cn.canon(e)
+    if isinstance(e, ast.Attribute) and isinstance(e.value, ast.Name) and e.value.id == "self":
+        stores = [n for n in ctx.own_nodes(f) if isinstance(n, (ast.Assign, ast.AnnAssign)) and any(norm(x) == t for x in (n.targets if isinstance(n, ast.Assign) else [n.target]))]
+        if len(stores) == 1 and stores[0].value is not None and stores[0].lineno < e.lineno:
+            return cn.canon(stores[0].value)
+    return t
 
 
 def select1(ctx: Ctx, chk) -> None:
@@ -104,7 +115,13 @@ def select1(ctx: Ctx, chk) -> None:
         # shape (b): for k in <order>: if <pred>: return table[k]  ...  return default
         lp = loops[0]
         body = [b for b in lp.body if not (isinstance(b, ast.Expr) and isinstance(b.value, ast.Constant))]
-        if not (len(body) == 1 and isinstance(body[0], ast.If) and not body[0].orelse and len(body[0].body) == 1 and isinstance(body[0].body[0], ast.Return)):
+        sel_pred = sel_ret = None
+        if len(body) == 1 and isinstance(body[0], ast.If) and not body[0].orelse and len(body[0].body) == 1 and isinstance(body[0].body[0], ast.Return):
+            sel_pred, sel_ret = body[0].test, body[0].body[0]
+        elif len(body) == 2 and isinstance(body[0], ast.If) and not body[0].orelse and len(body[0].body) == 1 and isinstance(body[0].body[0], ast.Continue) and isinstance(body[1], ast.Return):
+            # `if <skip>: continue` / `return table[k]`  ==  `if not <skip>: return table[k]`
+            sel_pred, sel_ret = ast.copy_location(ast.UnaryOp(op=ast.Not(), operand=body[0].test), body[0].test), body[1]
+        if sel_pred is None or sel_ret.value is None:
             raise AnalysisError("SELECT-1: selection loop shape not recognised")
         after = [x for x in f.node.body[f.node.body.index(lp) + 1 :] if isinstance(x, ast.Return)]
         if len(after) != 1:
@@ -115,7 +132,7 @@ def select1(ctx: Ctx, chk) -> None:
                 e = e.args[1]
             return e
 
-        gen.elt, gen.iter, gen.pred, gen.default, gen.kname, gen.node = uncast(body[0].body[0].value), lp.iter, body[0].test, uncast(after[0].value), lp.target.id, lp
+        gen.elt, gen.iter, gen.pred, gen.default, gen.kname, gen.node = uncast(sel_ret.value), lp.iter, sel_pred, uncast(after[0].value), lp.target.id, lp
     else:
         raise AnalysisError("SELECT-1: get_protocol is neither `next((table[k] for k in <order> if <pred>), default)` nor `for k in <order>: if <pred>: return table[k]` + fallback")
     kname = gen.kname
@@ -197,6 +214,11 @@ def select1(ctx: Ctx, chk) -> None:
     elif wrapped(a, kname) and wrapped(b, param):
         rel = {ast.Lt: ast.Gt, ast.Gt: ast.Lt, ast.LtE: ast.GtE, ast.GtE: ast.LtE}.get(type(op))
     else:
+        ta, tb = ctx.prog.type_of(f.module, a) or "", ctx.prog.type_of(f.module, b) or ""
+        if ta.split(".")[-1] == "str" and tb.split(".")[-1] == "str" and (wrapped(a, kname) or wrapped(b, kname)):
+            # typed fact: both operands are plain strings, one of them the table key
+            chk.refute(rule2, f"{f.fq}::predicate", f"`{norm(pred)}` compares version *strings*: the order is lexicographic ('2.10' < '2.2', '10.0' < '2.0'), so releases with a two-digit component select an older protocol than the newest one not above them", ctx.loc(f, pred))
+            return
         raise AnalysisError(f"SELECT-1: predicate `{norm(pred)}` does not compare the reported version with the table key")
     if rel is None:
         raise AnalysisError(f"SELECT-1: comparison operator in `{norm(pred)}` not recognised")
@@ -258,7 +280,7 @@ def copies1(ctx: Ctx, chk) -> None:
                 chk.instance(rule)
                 val = cn.canon(s.value)
                 sn = g.nodes_of(s)
-                goal = lambda x, val=val: isinstance(x.ast, ast.Expr) and isinstance(x.ast.value, ast.Call) and norm(x.ast.value.func).endswith(".set_protocol") and cn.canon(x.ast.value.args[0]) == val  # noqa: E731
+                goal = lambda x, val=val: isinstance(x.ast, ast.Expr) and isinstance(x.ast.value, ast.Call) and norm(x.ast.value.func).endswith(".set_protocol") and canon_sa(ctx, cn, f, x.ast.value.args[0]) == val  # noqa: E731
                 # a normal path from the store to exit that avoids set_protocol(value)?
                 p = g.reach_avoiding(sn, lambda x: x is g.exit, goal, labels_skip=("exc",))
                 if p is None:
@@ -346,12 +368,50 @@ def gate1(ctx: Ctx, chk) -> None:
         msg = message_param(hm)
         ok = False
         for n in hm.node.body:
-            if isinstance(n, ast.If) and norm(n.test) in ("message_handler is None", "not message_handler") and n.body and isinstance(n.body[-1], ast.Return) and norm(n.body[-1].value) == msg:
+            t = n.test if isinstance(n, ast.If) else None
+            hname = t.left.id if isinstance(t, ast.Compare) and isinstance(t.left, ast.Name) and len(t.ops) == 1 and isinstance(t.ops[0], ast.Is) and norm(t.comparators[0]) == "None" else t.operand.id if isinstance(t, ast.UnaryOp) and isinstance(t.op, ast.Not) and isinstance(t.operand, ast.Name) else None
+            looked_up = hname is not None and any(isinstance(x, ast.Call) and isinstance(x.func, ast.Name) and x.func.id == hname for x in ctx.own_nodes(hm))
+            if looked_up and n.body and isinstance(n.body[-1], ast.Return) and norm(n.body[-1].value) == msg:
                 ok = True
         if ok:
             chk.ok(rule, f"{hm.fq}::None", "no handler -> the message is returned unchanged", hm.where)
         else:
             chk.refute(rule, f"{hm.fq}::None", "_handle_message does not return the message when no handler exists for an existing type", hm.where)
+
+
+def who_version(ctx: Ctx, chk) -> None:
+    rule = "WHO-VERSION"
+    chk.rule(rule, "Gateway.protocol_version is assigned only by the handlers of a version report (version reply / gateway presentation), from the reported payload: nothing else (start-up, persistence, configuration) can put rules other than 1.4 in force before the gateway has reported a version")
+    I = ctx.I
+    cells = tables.handler_cells(ctx)
+    allowed = set()
+    for V in ctx.versions:
+        for value, name in I.folder.enum_canonical(I.vclass(V, "Internal")).items():
+            if name == "I_VERSION" and cells[V].get(("internal", value)) is not None:
+                allowed |= set(tables.chain_defs(ctx, cells[V][("internal", value)], V))
+    n = 0
+    for f in ctx.prog.all_functions():
+        for node in ctx.own_nodes(f):
+            if not isinstance(node, (ast.Assign, ast.AugAssign, ast.AnnAssign)):
+                continue
+            targets = node.targets if isinstance(node, ast.Assign) else [node.target]
+            for t in targets:
+                if not (isinstance(t, ast.Attribute) and t.attr == "protocol_version"):
+                    continue
+                bt = ctx.prog.type_of(f.module, t.value) or ""
+                is_gw = bt.split(" | ")[0].rsplit(".", 1)[-1] in ("Gateway", "Self") and (bt != "Self" or (f.cls is not None and f.cls.fq == GW))
+                if not bt and isinstance(t.value, ast.Name) and t.value.id == "self":
+                    is_gw = f.cls is not None and f.cls.fq == GW
+                if not is_gw:
+                    continue
+                n += 1
+                chk.instance(rule)
+                k = fkey(f, node)
+                if f in allowed:
+                    chk.ok(rule, k, "assigned by the version-report handler", ctx.loc(f, node))
+                else:
+                    chk.refute(rule, k, f"{f.qualname} assigns the gateway's protocol version (`{norm(node)[:70]}`) although no version report is being handled: the active rules no longer follow what the gateway reported (1.4 until the first report)", ctx.loc(f, node))
+    chk.floor(rule, "assignments of Gateway.protocol_version", n, 1)
 
 
 def learn1(ctx: Ctx, chk) -> None:
@@ -383,41 +443,30 @@ def learn1(ctx: Ctx, chk) -> None:
             chk.ok(rule, key, "gateway.protocol_version = In.payload", where, sample=V == "1.4")
         else:
             chk.refute(rule, "handle_i_version::assign", f"the version reply handler (protocol {V}) does not store the reported version (gateway.protocol_version = In.payload)", where or "src/aiomysensors/model/protocol/protocol_14.py", version=V)
-        # presentation of node 0: on every normal path of a node presentation (child 255) the `node_id == 0`
-        # test is evaluated, and its true branch always runs the version handler
+        # presentation of node 0: every normal path through the presentation chain that is consistent with
+        # In.child_id == 255 and In.node_id == 0 runs the version handler (whatever the shape of the branches)
         chk.instance(rule)
         pres = cells[V].get(("cmd", "presentation"))
         reach = False
         locp = ""
         why = f"a gateway (node 0) presentation does not reach the version handler in protocol {V}"
+        from ..prov import truth3
+
+        assume = {"In.child_id == 255": True, "In.node_id == 0": True}
         for f in tables.chain_defs(ctx, pres, V) if pres else []:
+            calls = [x for x in ctx.own_nodes(f) if isinstance(x, ast.Call) and norm(x.func).endswith("handle_i_version")]
+            if not calls:
+                continue
             cn = Canon(I, f)
-            g = None
-            for n in ctx.own_nodes(f):
-                if isinstance(n, ast.If) and cn.canon(n.test) in ("In.node_id == 0", "0 == In.node_id"):
-                    calls = [x for b in n.body for x in ast.walk(b) if isinstance(x, ast.Call) and norm(x.func).endswith("handle_i_version")]
-                    if not calls:
-                        continue
-                    locp = ctx.loc(f, n)
-                    g = g or CFG(f.node)
-                    t2 = [x for x in g.nodes if x.kind == "test" and x.ast is n.test]
-                    cnodes = g.nodes_where(lambda x: x.contains(calls[0]))
-                    t1 = [x for x in g.nodes if x.kind == "test" and cn.canon(x.ast) in ("In.child_id == 255", "255 == In.child_id")]
-                    if not t1 or not t2:
-                        continue
-                    # (a) inside the node-presentation branch no normal path reaches the exit without evaluating the node-0 test
-                    starts = [s2 for x in t1 for s2, lab in x.succ if lab == "t"]
-                    p = g.reach_avoiding(starts, lambda x: x is g.exit, lambda x: x in t2, labels_skip=("exc",), from_succ=False)
-                    # (b) the true branch of the node-0 test always calls the version handler
-                    starts2 = [s2 for x in t2 for s2, lab in x.succ if lab == "t"]
-                    p2 = g.reach_avoiding(starts2, lambda x: x is g.exit, lambda x: x in cnodes, labels_skip=("exc",), from_succ=False)
-                    if p is None and p2 is None:
-                        reach = True
-                    elif p is not None:
-                        why = f"a node presentation can complete without the node-0 test ({' -> '.join(g.path_text(p)[:4])}): a gateway presentation arriving in that state does not update the active protocol (protocol {V})"
-                    else:
-                        why = f"the node-0 branch can complete without calling the version handler (protocol {V})"
+            g = CFG(f.node)
+            locp = ctx.loc(f, calls[0])
+            cnodes = g.nodes_where(lambda x: any(x.contains(c) for c in calls))
+            p = g.reach_avoiding([g.entry], lambda x: x is g.exit, lambda x: x in cnodes, labels_skip=("exc",), from_succ=False, truth=lambda t, cn=cn: truth3(cn, t.ast, assume))
+            if p is None:
+                reach = True
+            else:
+                why = f"a presentation of node 0 (child 255) can complete without running the version handler ({' -> '.join(g.path_text(p)[1:6])}): a gateway presentation does not update the active protocol (protocol {V})"
         if reach:
-            chk.ok(rule, f"presentation(node 0)@{V}", "every node presentation evaluates `node_id == 0`, whose true branch runs handle_i_version", locp, sample=False)
+            chk.ok(rule, f"presentation(node 0)@{V}", "every normal path consistent with child 255 and node 0 calls handle_i_version", locp, sample=False)
         else:
             chk.refute(rule, "presentation(node 0)", why, locp or "src/aiomysensors/model/protocol/protocol_14.py", version=V)
